@@ -14,6 +14,7 @@ import (
 	"testing"
 	"time"
 
+	"github.com/fsnotify/fsnotify"
 	"github.com/golang-jwt/jwt"
 	"pgregory.net/rapid"
 )
@@ -298,7 +299,67 @@ func TestVerifC06JWT(t *testing.T) {
 		if c.OAuth2 {
 			vf.Class("jwt:oauth2-self-encoded")
 		}
-		vfRunVariants(vf, rt, v, "jwt", vars, hard, vfDrawLimit(rt), descr)
+		if vfRunVariants(vf, rt, v, "jwt", vars, hard, vfDrawLimit(rt), descr) {
+			return
+		}
+		if !vfOneIn(rt, 2, "clockHistory") {
+			return
+		}
+
+		// ---- the same validator over time: tokens with a finite lifetime are presented again and
+		// again (byte-identical requests) while the clock moves; "currently valid" is decided at
+		// the moment of each request.
+		t0 := now
+		var hist []string
+		descr2 := func() string { return descr() + "\nclock history (t0=" + fmt.Sprint(t0) + "):\n" + strings.Join(hist, "\n") }
+		type timed struct {
+			name     string
+			req      vfC06Req
+			accepted bool // oracle accepted it at an earlier step
+			refused  bool // oracle refused it at an earlier step
+		}
+		var toks []*timed
+		for _, name := range []string{"A", "B"} {
+			tk := vfGenValidTok(rt, c, t0)
+			tk.Claims["exp"] = vfTimeLit(rt, t0+rapid.SampledFrom([]int64{1, 2, 60, 3600}).Draw(rt, "life"), "any", "exp")
+			delete(tk.Claims, "nbf")
+			delete(tk.Claims, "iat")
+			if st := rapid.SampledFrom([]int64{-1, 0, 5, 5, 120}).Draw(rt, "validFrom"); st >= 0 {
+				tk.Claims["nbf"] = vfTimeLit(rt, t0+st, "whole", "nbf")
+			}
+			tk.Claims["jti"] = name
+			r := vfGenCarrier(rt, vfCarrierOpts{MaxBody: 256})
+			vfPlaceToken(rt, &r, c, tk.String(), inCookie)
+			toks = append(toks, &timed{name: name, req: r})
+		}
+		steps := rapid.IntRange(3, 7).Draw(rt, "clockSteps")
+		for i := 0; i < steps; i++ {
+			now += rapid.SampledFrom([]int64{0, 0, 1, 2, 6, 61, 121, 3601, 86400}).Draw(rt, "clockAdvance")
+			tk := toks[rapid.SampledFrom([]int{0, 0, 0, 1}).Draw(rt, "whichToken")]
+			want := vfJWTVerdict(&tk.req, c.Alg, c.Secret, c.Cookie, now)
+			label := "jwt:clock:" + want.String()
+			switch {
+			case want == vfReject && tk.accepted:
+				label = "jwt:clock:presented-again-after-expiry"
+			case want == vfAccept && tk.refused:
+				label = "jwt:clock:presented-again-once-nbf-has-passed"
+			case want == vfAccept && tk.accepted:
+				label = "jwt:clock:presented-again-still-valid"
+			}
+			hist = append(hist, fmt.Sprintf("t0+%d: token %s presented, oracle %s", now-t0, tk.name, want))
+			x := vfVariant{Label: label, Req: tk.req, Hdr: vfAccept, Cred: want}
+			vf.Class(label)
+			vfDrawPre(vf, rt, &x)
+			if vfCompare(vf, rt, v, &x, 0, descr2) {
+				return
+			}
+			if want == vfAccept {
+				tk.accepted = true
+			}
+			if want == vfReject {
+				tk.refused = true
+			}
+		}
 	})
 }
 
@@ -469,6 +530,10 @@ func TestVerifC06Basic(t *testing.T) {
 		var v *Validator
 		var y, store string
 		etcdKeyOf := map[string]string{} // user name -> storage key of a key+username entry
+		var etcdCh chan map[string]string
+		var etcdEntries []vfEtcdEntry
+		var etcdPrefix string
+		var etcdSalt []byte
 		if vfOneIn(rt, 3, "modeETCD") {
 			prefix := rapid.SampledFrom([]string{"credentials/", "tenants/a/", "c/"}).Draw(rt, "etcdPrefix")
 			var entries []vfEtcdEntry
@@ -487,7 +552,10 @@ func TestVerifC06Basic(t *testing.T) {
 				vf.Class("basic:etcd-entry-" + e.kind())
 				entries = append(entries, e)
 			}
-			super, dump, err := vfEtcdSupervisor(prefix, entries, rapid.SliceOfN(rapid.Byte(), 0, 8).Draw(rt, "salt"))
+			etcdSalt = rapid.SliceOfN(rapid.Byte(), 0, 8).Draw(rt, "salt")
+			etcdPrefix, etcdEntries = prefix, entries
+			super, dump, ch, err := vfEtcdSupervisor(prefix, entries, etcdSalt)
+			etcdCh = ch
 			if err != nil {
 				rt.Fatalf("VF-INCONCLUSIVE cannot build etcd entries: %v", err)
 			}
@@ -506,42 +574,55 @@ func TestVerifC06Basic(t *testing.T) {
 		}
 		descr := func() string { return "spec:\n" + y + store + "users=" + vfUsersString(users) }
 
-		// several rounds per validator: creating/closing one costs ~10 ms (fsnotify)
-		rounds := rapid.IntRange(1, 3).Draw(rt, "rounds")
-		for round := 0; round < rounds; round++ {
+		// stale credentials (pairs that were configured earlier in the history): always refused
+		var stales []vfUser
+		round := func() bool {
 			base := vfGenCarrier(rt, vfCarrierOpts{MaxBody: 4096})
-			u := users[rapid.IntRange(0, len(users)-1).Draw(rt, "user")]
-			kind := "valid"
-			user, pass := u.Name, u.Pass
-			if rapid.IntRange(0, 9).Draw(rt, "baseInvalid") < 3 {
-				kind = rapid.SampledFrom([]string{"wrong-pw", "unknown-user", "no-header", "bearer"}).Draw(rt, "baseKind")
+			var vars []vfVariant
+			var u vfUser
+			if len(users) > 0 {
+				u = users[rapid.IntRange(0, len(users)-1).Draw(rt, "user")]
+				kind := "valid"
+				user, pass := u.Name, u.Pass
+				if rapid.IntRange(0, 9).Draw(rt, "baseInvalid") < 3 {
+					kind = rapid.SampledFrom([]string{"wrong-pw", "unknown-user", "no-header", "bearer"}).Draw(rt, "baseKind")
+				}
+				switch kind {
+				case "wrong-pw":
+					pass += "!"
+				case "unknown-user":
+					user += "_"
+				}
+				switch kind {
+				case "no-header":
+				case "bearer":
+					base.set("Authorization", "Bearer "+vfBasicHeader(user, pass)[6:])
+				default:
+					base.set("Authorization", vfBasicHeader(user, pass))
+				}
+				b := vfVariant{Label: vfBasicLabel("base-"+kind, pass, kind != "no-header"), Req: base, Hdr: vfAccept, Cred: vfBasicVerdict(&base, users)}
+				if kind == "valid" && b.Cred != vfAccept {
+					rt.Fatalf("VF-INCONCLUSIVE harness: own oracle rejects the configured credentials")
+				}
+				vars = append([]vfVariant{b}, vfBasicMutations(rt, users, base, u, rapid.IntRange(2, 6).Draw(rt, "nmut"), allowColonMut)...)
+				if k, ok := etcdKeyOf[u.Name]; ok {
+					// the storage key of a key+username entry is not a user name
+					m := base.clone()
+					m.set("Authorization", vfBasicHeader(k, u.Pass))
+					vars = append(vars, vfVariant{Label: vfBasicLabel("etcd-key-as-user", u.Pass, true), Req: m, Hdr: vfAccept, Cred: vfBasicVerdict(&m, users)})
+				}
+			} else {
+				// nobody is configured (every credential was deleted): whatever is sent is refused
+				base.set("Authorization", vfBasicHeader("anyone", "anything"))
+				vars = []vfVariant{{Label: "basic:base-nobody-configured", Req: base, Hdr: vfAccept, Cred: vfBasicVerdict(&base, users)}}
 			}
-			switch kind {
-			case "wrong-pw":
-				pass += "!"
-			case "unknown-user":
-				user += "_"
-			}
-			switch kind {
-			case "no-header":
-			case "bearer":
-				base.set("Authorization", "Bearer "+vfBasicHeader(user, pass)[6:])
-			default:
-				base.set("Authorization", vfBasicHeader(user, pass))
-			}
-			b := vfVariant{Label: vfBasicLabel("base-"+kind, pass, kind != "no-header"), Req: base, Hdr: vfAccept, Cred: vfBasicVerdict(&base, users)}
-			if kind == "valid" && b.Cred != vfAccept {
-				rt.Fatalf("VF-INCONCLUSIVE harness: own oracle rejects the configured credentials")
-			}
-			vars := append([]vfVariant{b}, vfBasicMutations(rt, users, base, u, rapid.IntRange(2, 6).Draw(rt, "nmut"), allowColonMut)...)
-			if k, ok := etcdKeyOf[u.Name]; ok {
-				// the storage key of a key+username entry is not a user name
+			for _, st := range stales {
 				m := base.clone()
-				m.set("Authorization", vfBasicHeader(k, u.Pass))
-				vars = append(vars, vfVariant{Label: vfBasicLabel("etcd-key-as-user", u.Pass, true), Req: m, Hdr: vfAccept, Cred: vfBasicVerdict(&m, users)})
+				m.set("Authorization", vfBasicHeader(st.Name, st.Pass))
+				vars = append(vars, vfVariant{Label: vfBasicLabel("stale-credentials", st.Pass, true), Req: m, Hdr: vfAccept, Cred: vfBasicVerdict(&m, users)})
 			}
 			for i := 1; i < len(vars); i++ {
-				vars[i].Covered = b.Cred == vfAccept && vars[i].Cred == vfReject
+				vars[i].Covered = vars[0].Cred == vfAccept && vars[i].Cred == vfReject
 			}
 			hard := strings.Contains(u.Pass, ":") || vfNonASCII(u.Pass) || vfNonASCII(u.Name)
 			if strings.Contains(u.Pass, ":") {
@@ -550,8 +631,160 @@ func TestVerifC06Basic(t *testing.T) {
 			if vfNonASCII(u.Pass) || vfNonASCII(u.Name) {
 				vf.Class("basic:non-ascii-credential")
 			}
-			vf.Class("basic:scheme-" + u.Scheme)
-			if vfRunVariants(vf, rt, v, "basic", vars, hard, vfDrawLimit(rt), descr) {
+			if len(users) > 0 {
+				vf.Class("basic:scheme-" + u.Scheme)
+			}
+			return vfRunVariants(vf, rt, v, "basic", vars, hard, vfDrawLimit(rt), descr)
+		}
+		// several rounds per validator: creating/closing one costs ~10 ms (fsnotify)
+		rounds := rapid.IntRange(1, 3).Draw(rt, "rounds")
+		for r := 0; r < rounds; r++ {
+			if round() {
+				return
+			}
+		}
+		if etcdCh == nil || !vfOneIn(rt, 2, "etcdUpdates") {
+			return
+		}
+
+		// ---- mode ETCD: the credentials change while the filter runs. The syncer delivers the full
+		// state of the prefix after every change; the watcher applies it. The oracle is the pair set
+		// after the latest update.
+		nupd := rapid.IntRange(1, 4).Draw(rt, "etcdNUpdates")
+		for up := 0; up < nupd; up++ {
+			op := rapid.SampledFrom([]string{"add", "change-password", "remove", "remove-all", "remove-all"}).Draw(rt, "etcdOp")
+			if len(etcdEntries) == 0 {
+				op = "re-add"
+			}
+			before := append([]vfUser(nil), users...)
+			mkEntry := func(u vfUser, n int) vfEtcdEntry {
+				e := vfEtcdEntry{User: u}
+				switch rapid.SampledFrom([]string{"key+username", "key-only", "username-only"}).Draw(rt, "entryKind") {
+				case "key+username":
+					e.Key = fmt.Sprintf("cred-u%d-%d", up, n)
+					e.Username, e.StoreKey = u.Name, e.Key
+					etcdKeyOf[u.Name] = e.Key
+				case "key-only":
+					e.Key, e.StoreKey = u.Name, fmt.Sprintf("k-u%d-%d", up, n)
+				default:
+					e.Username, e.StoreKey = u.Name, fmt.Sprintf("entry-u%d-%d", up, n)
+				}
+				return e
+			}
+			switch op {
+			case "add", "re-add":
+				n := 1
+				if op == "re-add" {
+					n = rapid.IntRange(1, 2).Draw(rt, "reAddN")
+				}
+				for i := 0; i < n; i++ {
+					u := vfUser{Name: fmt.Sprintf("new%d%d-%s", up, i, rapid.StringOfN(rapid.RuneFrom(vfUserAlpha), 1, 4, -1).Draw(rt, "newUser")),
+						Pass: vfDrawPass(rt, false), Scheme: rapid.SampledFrom([]string{"sha", "ssha", "bcrypt"}).Draw(rt, "newScheme")}
+					if op == "re-add" && i == 0 && len(stales) > 0 && rapid.Bool().Draw(rt, "reAddOldUser") {
+						u.Name = stales[0].Name // an earlier user comes back with another password
+						u.Pass += "#"
+					}
+					etcdEntries = append(etcdEntries, mkEntry(u, i))
+				}
+			case "change-password":
+				i := rapid.IntRange(0, len(etcdEntries)-1).Draw(rt, "etcdIdx")
+				etcdEntries[i].User.Pass += rapid.SampledFrom([]string{"2", "é", " x"}).Draw(rt, "etcdPwTail")
+				if etcdEntries[i].User.Scheme == "plain" && !vfPlainOK(etcdEntries[i].User.Pass) {
+					etcdEntries[i].User.Scheme = "sha"
+				}
+			case "remove":
+				i := rapid.IntRange(0, len(etcdEntries)-1).Draw(rt, "etcdIdx")
+				delete(etcdKeyOf, etcdEntries[i].User.Name)
+				etcdEntries = append(etcdEntries[:i:i], etcdEntries[i+1:]...)
+			default: // remove-all: the last credential goes too
+				etcdEntries = nil
+				etcdKeyOf = map[string]string{}
+			}
+			users = users[:0:0]
+			for _, e := range etcdEntries {
+				users = append(users, e.User)
+			}
+			for _, o := range before {
+				still := false
+				for _, n := range users {
+					if n.Name == o.Name && n.Pass == o.Pass {
+						still = true
+					}
+				}
+				if !still {
+					stales = append(stales, o)
+				}
+			}
+			// a pair that is configured again is not stale any more
+			kept := stales[:0:0]
+			for _, st := range stales {
+				again := false
+				for _, n := range users {
+					if n.Name == st.Name && n.Pass == st.Pass {
+						again = true
+					}
+				}
+				if !again {
+					kept = append(kept, st)
+				}
+			}
+			stales = kept
+			kvs, dump, err := vfEtcdKVs(etcdPrefix, etcdEntries, etcdSalt)
+			if err != nil {
+				rt.Fatalf("VF-INCONCLUSIVE cannot build etcd entries: %v", err)
+			}
+			store += fmt.Sprintf("update %d (%s), state of the prefix delivered by the syncer:\n%s", up+1, op, dump)
+			vf.Class("basic:etcd-update-" + op)
+			if len(users) == 0 {
+				vf.Class("basic:etcd-all-credentials-removed")
+			}
+			// Deliver the state twice: the watcher takes one state at a time, so once the second
+			// send has been taken the first has been applied. Not taken in time: the watcher is
+			// not running here -> inconclusive.
+			for k := 0; k < 2; k++ {
+				select {
+				case etcdCh <- kvs:
+				case <-time.After(10 * time.Second):
+					rt.Fatalf("VF-INCONCLUSIVE the credential watcher did not take update %d within 10 s\n%s", up+1, descr())
+				}
+			}
+			// delivered; the answers must follow (a little patience for an implementation that
+			// applies the state after taking it)
+			var why string
+			consistent := func() bool {
+				check := func(u vfUser, want bool) bool {
+					r := vfC06Req{Method: "GET", Host: "example.com", Path: "/"}
+					r.set("Authorization", vfBasicHeader(u.Name, u.Pass))
+					out := vfC06Serve(v, &r, 0)
+					if out.Panic || out.Err != "" || (out.Result == "") != want {
+						why = fmt.Sprintf("user %q password %q: want accepted=%v, got %s", u.Name, u.Pass, want, out)
+						return false
+					}
+					return true
+				}
+				for _, u := range users {
+					if !check(u, true) {
+						return false
+					}
+				}
+				for _, st := range stales {
+					if !check(st, false) {
+						return false
+					}
+				}
+				return true
+			}
+			ok := consistent()
+			for deadline := time.Now().Add(5 * time.Second); !ok && time.Now().Before(deadline); {
+				time.Sleep(20 * time.Millisecond)
+				ok = consistent()
+			}
+			if !ok {
+				if vf.Violation(rt, "basic:etcd-update-"+op+"/not-applied", "the syncer delivered update %d (%s) and the watcher took it, but 5 s later the validator still answers from an earlier state: %s\n%s", up+1, op, why, descr()) {
+					return
+				}
+			}
+			if round() {
 				return
 			}
 		}
@@ -908,7 +1141,7 @@ func TestVerifC06Signature(t *testing.T) {
 		carrier := vfGenCarrier(rt, vfCarrierOpts{NoBody: noBody})
 		kind := "valid"
 		if rapid.IntRange(0, 9).Draw(rt, "baseInvalid") < 3 {
-			kind = rapid.SampledFrom([]string{"unknown-key", "wrong-secret", "stale", "future", "future-beyond-ttl", "future-beyond-ttl"}).Draw(rt, "baseKind")
+			kind = rapid.SampledFrom([]string{"unknown-key", "empty-key-id", "wrong-secret", "stale", "future", "future-beyond-ttl", "future-beyond-ttl"}).Draw(rt, "baseKind")
 		}
 		presign := rapid.IntRange(0, 2).Draw(rt, "presign") == 0
 		plan, kind := vfGenSigPlan(rt, c, kind, presign)
@@ -935,7 +1168,7 @@ func TestVerifC06Signature(t *testing.T) {
 		}
 		// a second, freshly signed request under a changed plan (wrong secret, unknown key, stale)
 		if rapid.IntRange(0, 2).Draw(rt, "resign") == 0 {
-			k2 := rapid.SampledFrom([]string{"unknown-key", "wrong-secret", "stale", "valid", "future-beyond-ttl"}).Draw(rt, "resignKind")
+			k2 := rapid.SampledFrom([]string{"unknown-key", "empty-key-id", "wrong-secret", "stale", "valid", "future-beyond-ttl"}).Draw(rt, "resignKind")
 			p2, k2 := vfGenSigPlan(rt, c, k2, presign)
 			if s2, err := vfSignWithRepo(c, p2, carrier, now); err == nil {
 				x := vfVariant{Label: vfSigLabel("resign-"+k2, c, &s2.Req), Req: s2.Req, Hdr: vfAccept, Cred: vfPlanVerdict(c, p2)}
@@ -1181,7 +1414,7 @@ func TestVerifC06Combined(t *testing.T) {
 		if c.Sig != nil {
 			kind := "valid"
 			if vfOneIn(rt, 8, "comboSigInvalid") {
-				kind = rapid.SampledFrom([]string{"unknown-key", "wrong-secret", "stale", "future-beyond-ttl"}).Draw(rt, "sigKind")
+				kind = rapid.SampledFrom([]string{"unknown-key", "empty-key-id", "wrong-secret", "stale", "future-beyond-ttl"}).Draw(rt, "sigKind")
 			}
 			plan, _ := vfGenSigPlan(rt, *c.Sig, kind, c.Presign)
 			var err error
@@ -1600,6 +1833,16 @@ func (c *vfInhCfg) spec() map[string]interface{} {
 	return m
 }
 
+// vfInotifyAvailable: can this process still get an inotify instance?
+func vfInotifyAvailable() bool {
+	w, err := fsnotify.NewWatcher()
+	if err != nil {
+		return false
+	}
+	w.Close()
+	return true
+}
+
 // vfInhPickupWait bounds the wait for a changed user file to be noticed (the watcher is event
 // driven, normally a few milliseconds; generous for a busy machine).
 const vfInhPickupWait = 8 * time.Second
@@ -1615,6 +1858,13 @@ func TestVerifC06Inherit(t *testing.T) {
 	old := jwt.TimeFunc
 	defer func() { jwt.TimeFunc = old }()
 	vfClockProbe(t)
+	fileCases, fileSkipped := 0, 0
+	defer func() {
+		// cases that could not be run because no inotify instance was left must stay the exception
+		if fileCases >= 20 && fileSkipped*2 > fileCases && !t.Failed() {
+			t.Fatalf("VF-INCONCLUSIVE %d of %d update histories with a user file could not be checked: no inotify instance left on this machine (fs.inotify.max_user_instances)", fileSkipped, fileCases)
+		}
+	}()
 	rapid.Check(t, func(rt *rapid.T) {
 		now := int64(1_700_000_000) + int64(rapid.IntRange(0, 10_000_000).Draw(rt, "now"))
 		jwt.TimeFunc = func() time.Time { return time.Unix(now, 0) }
@@ -1786,6 +2036,8 @@ func TestVerifC06Inherit(t *testing.T) {
 		// ---- pipeline updates
 		nup := rapid.IntRange(1, 3).Draw(rt, "updates")
 		var twin *Validator
+		watchOK := true
+		_ = watchOK
 		for g := 0; g < nup; g++ {
 			n := c
 			what := []string{}
@@ -1865,6 +2117,16 @@ func TestVerifC06Inherit(t *testing.T) {
 				rt.Fatalf("VF-INCONCLUSIVE twin spec rejected: %v", err)
 			}
 			live = append(live, twin)
+			// inotify instances are a per-user resource (128 here) shared with everything else
+			// running on this machine; a validator created while none is left watches nothing.
+			// That is the environment, not the property: such a case ends here.
+			fileCases++
+			watchOK = vfInotifyAvailable()
+			if !watchOK {
+				fileSkipped++
+				vf.Class("inherit:no-inotify-instance-left(file-edits-skipped)")
+				return
+			}
 		}
 
 		// ---- the user file changes after the update(s)
@@ -1958,6 +2220,11 @@ func TestVerifC06Inherit(t *testing.T) {
 					for !tok2 && time.Now().Before(deadline.Add(2*time.Second)) {
 						time.Sleep(50 * time.Millisecond)
 						tok2, twhy = consistent(twin)
+					}
+					if !tok2 && !vfInotifyAvailable() {
+						fileSkipped++
+						vf.Class("inherit:no-inotify-instance-left(file-edits-skipped)")
+						return
 					}
 					if !tok2 {
 						rt.Fatalf("VF-INCONCLUSIVE neither the inherited generation nor a fresh twin noticed the changed user file within %s (file watching not working here?): %s / twin: %s\n%s", vfInhPickupWait, why, twhy, descr())
